@@ -338,6 +338,11 @@ func (p *provider) createAllSingletonsWithContext(ctx context.Context) error {
 			continue
 		}
 
+		// Group nodes only order their members; there is nothing to create
+		if _, isGroup := node.Provider.(*groupNode); isGroup {
+			continue
+		}
+
 		descriptor, ok := node.Provider.(*Descriptor)
 		if !ok {
 			return &ValidationError{
